@@ -159,6 +159,7 @@ def run(ctx):
             g = fx.guards_before(e)
             outer = enclosing_guards(K, body, fx)
             pos = [a for a, v in g if v is True and isinstance(a, tuple) and a[0] == "in" and list_of(a[2]) in HELD and fx.same_key(a[1], e.key)]
+            pos = pos or _pipeline_membership(ctx, e.key)
             if pos:
                 feeds_from_held = True
         if not feeds_from_held and not b["emits"]:
@@ -167,6 +168,7 @@ def run(ctx):
         for fx, e in b["pushes"]:
             g = fx.guards_before(e)
             pos = [a for a, v in g if v is True and isinstance(a, tuple) and a[0] == "in" and list_of(a[2]) in HELD and fx.same_key(a[1], e.key)]
+            pos = pos or _pipeline_membership(ctx, e.key)
             ck.ob("C19-B", fn, "batch-%s:push-guarded-by-membership-in-held-list" % name, bool(pos), site=e.ev.span,
                   detail=None if pos else "a key is collected for release without a positive membership test on pass_through_keys/mapped_output_keys")
             dup = [a for a, v in g if v is False and isinstance(a, tuple) and a[0] == "in" and list_of(a[2]) == ("local", local) and fx.same_key(a[1], e.key)]
@@ -188,6 +190,8 @@ def run(ctx):
                 for a, v in fx.guards_before(e):
                     if v is True and isinstance(a, tuple) and a[0] == "in" and list_of(a[2]) in HELD and fx.same_key(a[1], e.key):
                         need.add(list_of(a[2]))
+                for a in _pipeline_membership(ctx, e.key):
+                    need.add(list_of(a[2]))
             have = {r.lst for fx, r in b["dels"]}
             ck.ob("C19-B", fn, "batch-%s:removed-from-%s" % (name, "+".join(sorted(need)) or "?"), bool(need) and need <= have,
                   detail="membership lists %s, retain(!batch.contains) on %s" % (sorted(need), sorted(have)))
@@ -237,6 +241,21 @@ def _local_name(body, site_blk):
 
 
 EV_TYPES = ("std::vec::Vec<events::Event>", "key_transforms::StepResult")
+
+
+def _pipeline_membership(ctx, key):
+    """the pushed key is the element of a lazy pipeline  ..filter(|k| held_list.contains(k))..  : every element that reaches the
+    consumer has passed that filter -- the same positive membership test as a guard in the consuming loop"""
+    k0 = mir.strip(key)
+    if not (isinstance(k0, tuple) and k0 and k0[0] == "elem" and isinstance(k0[1], tuple) and k0[1] and k0[1][0] == "iter" and isinstance(k0[1][1], tuple) and k0[1][1][0] == "call"):
+        return []
+    try:
+        pl = tables.pipeline(ctx.body, k0[1][1])
+    except Exception:
+        return []
+    if pl["problems"] or pl["elem"] is None:
+        return []
+    return [a for a, v in pl["guards"] if v is True and isinstance(a, tuple) and a[0] == "in" and list_of(a[2]) in HELD and mir.strip(a[1]) == mir.strip(pl["elem"])]
 
 
 def check_flow(ctx, ck, K):
